@@ -478,6 +478,11 @@ class SliceModel:
         body = c.body
         io = single_origin(trace_operand(body, arg, through_calls=set()))
         if io is not None and io.kind == 'param' and not io.proj and not body.is_closure and depth < 4:
+            # the dispatch may sit in this very body, on a *sibling parameter*: `scan_token(ch, start)` switches on `ch`
+            # while every caller passes (item.1, item.0) of one item
+            r = self._sibling_char_dispatch(c, io.data, depth)
+            if r is not None:
+                return r
             # the index is handed on unchanged by a forwarding body (dispatch -> delim_token -> single_char): ask its callers
             return self._ascii_at(body, arg, depth + 1)
         if io is None or io.kind != 'callres' or io.proj[-1:] != (('f', 0),):
@@ -486,6 +491,40 @@ class SliceModel:
         if not ok_b:
             return False, w
         char_key = (io.kind, io.key()[1], io.proj[:-1] + (('f', 1),))
+        return self._ascii_under(body, c, char_key)
+
+    def _sibling_char_dispatch(self, c, k, depth):
+        body = c.body
+        chars = [j for j in range(1, body.arg_count + 1) if body.locals[j]['ty'] == 'char' and j != k]
+        if not chars:
+            return None
+        sites = []
+        oid = getattr(body, 'orig_id', body.id)
+        for caller_id in self.prog.callers.get(oid, ()):
+            sites += self.prog.edge_sites.get((caller_id, oid), [])
+        if not sites:
+            return None
+        for j in chars:
+            good = True
+            for cs in sites:
+                if max(j, k) - 1 >= len(cs.args):
+                    good = False; break
+                io = single_origin(trace_operand(cs.body, cs.args[k - 1], through_calls=set()))
+                co = single_origin(trace_operand(cs.body, cs.args[j - 1], through_calls=set()))
+                if io is None or co is None or io.kind != 'callres' or co.kind != 'callres' or io.key()[1] != co.key()[1] \
+                        or io.proj[-1:] != (('f', 0),) or co.proj[-1:] != (('f', 1),) or io.proj[:-1] != co.proj[:-1]:
+                    good = False; break
+                ok_b, w = self.origin_b(cs.body, io)
+                if not ok_b:
+                    good = False; break
+            if not good:
+                continue
+            r, w = self._ascii_under(body, c, ('param', j, ()))
+            if r:
+                return True, 'the index parameter travels with the character parameter of the same item (every call site), and the call sits behind ASCII-only edges of the switch on that character'
+        return None
+
+    def _ascii_under(self, body, c, char_key):
         # remove ASCII edges of every switch on that item's char; the call must become unreachable
         removed = set()
         found = False
